@@ -335,7 +335,7 @@ PROPS["C13"] = {
     "level_text": "exploration: thousands of (image chain, limit, script) triples per run with an online accounting monitor",
     "level_note": "trusted: hook H1 shadow counters (updated in the same call as the budget), c13.rs",
     "technique": "online invariant monitor on hooked allocator state + quiescence checks through the public API",
-    "quick": {"cases": 5000, "floor": 125, "time_budget": 240},
+    "quick": {"cases": 20000, "floor": 500, "time_budget": 240},
     "thorough": {"cases": 300000, "floor": 7500, "time_budget": 3000},
 }
 
@@ -498,5 +498,5 @@ PROPS["C02"] = {
 }
 
 ALL = ["C%02d" % i for i in range(1, 21)]
-HOOK_COMMITS = ["27cc801", "8f68576", "99816ae", "c29f982", "73931bd"]
+HOOK_COMMITS = ["27cc801", "8f68576", "99816ae", "c29f982", "73931bd", "f99bad3", "4e99f73"]
 NOT_APPLICABLE = {p: "check not built yet in this session (work in progress; see DESIGN.md section 9 for order)" for p in ALL if p not in PROPS}
